@@ -60,6 +60,26 @@ Theorem C14_new_stream_state : forall calc1 calcx sk w d p T P pkg,
 Proof. exact new_stream_pstate. Qed.
 Print Assumptions C14_new_stream_state.
 
+(* THE PROPERTY AS WORDED: after every history, a read on a single-phase stream equals the same read on a
+   stream freshly constructed (appended to the table) with the same flows, phase, T and P and the same package. *)
+Theorem C14_read_equals_fresh_stream : forall calc1 calcx,
+  calc1_respects calc1 -> calcx_respects calcx ->
+  forall ops i name flow nophase d p T P,
+    let w' := run_world calc1 calcx true w0 ops in
+    (i < length (cobjs (w_cs w')))%nat ->
+    pstate_of (w_st w') i = mkps false [p] [d] T P ->
+    let wn := fst (step calc1 calcx true w' (ONew [d] [p] T P (c_pkg (cobj_of (w_cs w') i)))) in
+    rd_equiv (snd (get_property calc1 calcx w' i name flow nophase))
+             (snd (get_property calc1 calcx wn (length (objs (w_st w'))) name flow nophase)).
+Proof. exact equals_fresh_stream. Qed.
+Print Assumptions C14_read_equals_fresh_stream.
+
+(* the state-side and cache-side object tables stay aligned along every history (model sanity) *)
+Theorem C14_tables_aligned : forall calc1 calcx sk ops,
+  length (objs (w_st (run_world calc1 calcx sk w0 ops))) = length (cobjs (w_cs (run_world calc1 calcx sk w0 ops))).
+Proof. intros calc1 calcx sk ops. apply (run_aligned calc1 calcx sk ops w0). reflexivity. Qed.
+Print Assumptions C14_tables_aligned.
+
 (* Source BEFORE the repair: the statement still holds for every history that creates no proxy ... *)
 Theorem C14_read_fresh_without_proxy : forall calc1 calcx,
   calc1_respects calc1 -> calcx_respects calcx ->
@@ -90,9 +110,7 @@ Theorem C14_read_fresh_before_repair_refuted :
 Proof.
   split; [exact stub_calc1_respects|]. split; [exact stub_calcx_respects|].
   split; [vm_compute; lia|].
-  intros H. inversion H as [|x y E EX EY].
-  vm_compute in EX, EY. injection EX as <-. injection EY as <-.
-  unfold Qeq in E. vm_compute in E. discriminate E.
+  apply rd_equivb_false. vm_compute. reflexivity.
 Qed.
 Print Assumptions C14_read_fresh_before_repair_refuted.
 
@@ -111,3 +129,9 @@ Proof.
   split; [vm_compute; lia|]. split; [vm_compute; reflexivity|]. split; [vm_compute; reflexivity|].
   eexists. split; [vm_compute; reflexivity|]. intros E. unfold Qeq in E. vm_compute in E. discriminate E.
 Qed.
+
+(* the hypotheses of C14_read_equals_fresh_stream are met after the witness history (object 0, liquid, T = 300) *)
+Example C14_fresh_stream_hypotheses :
+  let w' := run_world stub_calc1 stub_calcx true w0 witness_ops in
+  pstate_of (w_st w') O = mkps false [1%nat] [[1; 3; 0]] 300 101325.
+Proof. vm_compute. reflexivity. Qed.
